@@ -325,7 +325,20 @@ def stop_tables(ctx, rep, rule):
     tg0, blocks0 = _walk_cell(body, prov, pv, vv, "GetResponse", 0)
     rep.check(rule, "OpGetBulk::to_python|0 varbinds/no-elements", not cells.has_call(tg0, "::append"), "nothing appended",
               "elements appended for an empty reply", body.loc())
+    # the elements may be drawn through Iterator::filter(closure): a kind the closure rejects never reaches the loop body
+    nx_src = [prov.operand(b.term["args"][0]) for b in body.calls() if (callee_path(b.term) or "").endswith("Iterator>::next") and b.term["args"]]
+
+    def filt(k):
+        def ev(t):
+            return vv[k] if is_value_discr(t) else None
+        vs = [v for v in (cells.filter_verdict_of(facts, t, ev) for t in nx_src) if v is not None]
+        return vs[0] if vs else None
     for k in ["Null"] + EXC_KINDS:
+        if filt(k) is False:
+            for sub, msg in (("", "dropped by the filter closure"), ("/later-elements-still-read", "filter() continues with the next element"),
+                             ("/no-continuation-update", "never reaches set_next_oid")):
+                rep.ok(rule, "OpGetBulk::to_python|element/%s%s" % (k, sub), msg, body.loc(), obligation=True)
+            continue
         tg, _ = _walk_cell(body, prov, pv, vv, "GetResponse", ("range", 1, INF), val=k)
         o = _walk_outcome(tg) & {"tuple", "marker"}
         expect("element/" + k, o, set(), "NULL / exception values are skipped")
@@ -337,7 +350,8 @@ def stop_tables(ctx, rep, rule):
                   "skipped values do not move the continuation point", "set_next_oid is called for a %s value" % k, body.loc())
     for k in DATA_KINDS:
         tg, _ = _walk_cell(body, prov, pv, vv, "GetResponse", ("range", 1, INF), inside=True, val=k)
-        expect("element/inside/" + k, _walk_outcome(tg) & {"tuple", "marker"}, {"tuple"}, "in-subtree data value is appended")
+        expect("element/inside/" + k, (_walk_outcome(tg) & {"tuple", "marker"}) if filt(k) is not False else {"filtered-out"}, {"tuple"},
+               "in-subtree data value is appended")
         tg, _ = _walk_cell(body, prov, pv, vv, "GetResponse", ("range", 1, INF), inside=False, val=k)
         expect("element/outside/" + k, _walk_outcome(tg) & {"tuple", "marker"}, {"marker"}, "first out-of-subtree OID: end marker, no element")
     expect("Report", _walk_outcome(_walk_cell(body, prov, pv, vv, "Report")[0]), {"err:AuthenticationFailed"}, "Report -> SnmpAuthError")
@@ -362,8 +376,10 @@ def stop_tables(ctx, rep, rule):
     else:
         rep.violation(rule, "OpGetBulk::to_python|no-data-values-stops", "no list.is_empty() test before returning the list", body.loc())
     # reply order: the element loop is a forward iteration over resp.vars and elements are appended
-    fwd = [b for b in body.calls() if (callee_path(b.term) or "") == "<std::slice::Iter<'a, T> as std::iter::Iterator>::next"]
-    rev = [b for b in body.calls() if "Rev<" in (callee_path(b.term) or "")]
+    fwd = [b for b in body.calls() if (callee_path(b.term) or "").endswith("as std::iter::Iterator>::next") and
+           ((callee_path(b.term) or "").startswith("<std::slice::Iter<") or
+            flow.mentions(prov.operand(b.term["args"][0]), lambda s_: s_[0] == "f" and s_[2] == "vars"))]
+    rev = [b for b in body.calls() if "Rev<" in (callee_path(b.term) or "") or (callee_path(b.term) or "").split("::")[-1] in ("rev", "next_back", "rfold", "rfind")]
     rep.check(rule, "OpGetBulk::to_python|reply-order", bool(fwd) and not rev and not cells.has_call(cells.tags(body, [b.idx for b in body.live_blocks()]), "::insert"),
               "forward iteration, append", "elements are not delivered in reply order", body.loc())
 
